@@ -408,10 +408,11 @@ func ExecKPlan(p *KPlan, trace bool) *core.Result {
 	gb := &gateBox{g: &directGate{port}}
 	c := &kctx{p: p, res: res, k: k, port: port, start: start, trace: trace, prop: propOfScenario(p.Scenario), h: 14695981039346656037}
 	if p.Transport == 1 && HooksEnabled {
-		c.realNL = newRealNetlink(&simSocket{gb: gb}, p.PortID, make([]byte, 16+8970), respWriter(p))
+		c.realNL = newRealNetlink(&simSocket{gb: gb}, p.PortID, make([]byte, 16+8970+bigBuf(p)), respWriter(p))
 		c.nl = c.realNL
 	} else {
 		c.stub = newStubNetlink(gb, p.PortID)
+		c.stub.rbuf = make([]byte, 16+8970+bigBuf(p))
 		c.nl = c.stub
 	}
 	if c.realNL == nil && p.Scenario != 18 {
@@ -1707,6 +1708,16 @@ func sendPayload(tag int, n int) []byte {
 }
 
 // ---------- C18: framing ----------
+
+// bigBuf: the status scenario reads into a buffer somewhat larger than the
+// library's default (an application may), so that replies with more than 8970
+// payload bytes - trailing bytes to be ignored - arrive whole.
+func bigBuf(p *KPlan) int {
+	if p.Scenario == 16 {
+		return 160
+	}
+	return 0
+}
 
 // ownPidSentinel in KOp.D: the caller puts the process id of this very process
 // into Header.Pid (plans are data and must not carry a process id).
